@@ -53,11 +53,10 @@ EndsWith(s, p)   == Len(p) <= Len(s) /\ Sub(s, Len(s) - Len(p) + 1, Len(s)) = p
 Contains(s, p)   == \E i \in 1..(Len(s) - Len(p) + 1) : Sub(s, i, i + Len(p) - 1) = p
 HasChar(s, c)    == \E i \in DOMAIN s : s[i] = c
 
-(* positions of character c in s, ascending, as a sequence *)
-RECURSIVE PosFrom(_, _, _)
-PosFrom(s, c, i) == IF i > Len(s) THEN <<>>
-                    ELSE IF s[i] = c THEN <<i>> \o PosFrom(s, c, i + 1) ELSE PosFrom(s, c, i + 1)
-Positions(s, c) == PosFrom(s, c, 1)
+(* positions of character c in s, ascending, as a sequence.  Written with SelectSeq (an    *)
+(* iterative built-in) rather than recursion: TLC's cost per recursive call grows with the  *)
+(* recursion depth, which made splitting a 20 000-character text take a minute.             *)
+Positions(s, c) == SelectSeq([i \in 1..Len(s) |-> i], LAMBDA i : s[i] = c)
 
 (* str.split(c): always at least one piece *)
 SplitOn(s, c) ==
@@ -78,14 +77,17 @@ ConcatFrom(parts, k) == IF k > Len(parts) THEN <<>> ELSE parts[k] \o ConcatFrom(
 Concat(parts) == ConcatFrom(parts, 1)
 
 (* str.splitlines(): CRLF counts as one break; no trailing empty line *)
-RECURSIVE SplitLinesFrom(_, _, _)
-SplitLinesFrom(s, i, start) ==
-  IF i > Len(s) THEN (IF start <= Len(s) THEN <<Sub(s, start, Len(s))>> ELSE <<>>)
-  ELSE IF s[i] \in LineBreakSet
-       THEN LET nxt == IF s[i] = CR /\ i < Len(s) /\ s[i+1] = LF THEN i + 2 ELSE i + 1
-            IN <<Sub(s, start, i - 1)>> \o SplitLinesFrom(s, nxt, nxt)
-       ELSE SplitLinesFrom(s, i + 1, start)
-SplitLines(s) == SplitLinesFrom(s, 1, 1)
+SplitLines(s) ==
+  LET n == Len(s)
+      \* indices at which a line break begins (the LF of a CRLF pair does not begin one)
+      B == SelectSeq([i \in 1..n |-> i],
+                     LAMBDA i : s[i] \in LineBreakSet /\ ~(s[i] = LF /\ i > 1 /\ s[i-1] = CR))
+      brk(i) == IF s[i] = CR /\ i < n /\ s[i+1] = LF THEN 2 ELSE 1
+      start(k) == IF k = 1 THEN 1 ELSE B[k-1] + brk(B[k-1])
+      m == Len(B)
+      lastStart == start(m + 1)
+  IN [k \in 1..m |-> Sub(s, start(k), B[k] - 1)]
+     \o (IF lastStart <= n THEN <<Sub(s, lastStart, n)>> ELSE <<>>)
 
 Max2(a, b) == IF a >= b THEN a ELSE b
 Min2(a, b) == IF a <= b THEN a ELSE b
